@@ -31,10 +31,12 @@ WORKLOADS = [
     ("outer_locals", "lambda m, i: m.via_outer_locals(i)"),
     ("raises", "lambda m, i: m.raises(i)"),
     ("prints", "lambda m, i: m.prints(i)"),
+    ("eqmeta_bare", "lambda m, i: m.eqmeta_bare(i)"),
 ]
 # workloads on which the unchanged tracer is known to differ (open findings), each with the one difference that is attributed
 KF_WORKLOADS = [
     ("metaclass_hash", "lambda m, i: m.takes_class(i)", "KF-C03-metaclass-hash"),
+    ("metaclass_eq_in_generic", "lambda m, i: m.eqmeta_in_container(i)", "KF-C03-metaclass-eq-in-generic"),
     ("locals_snapshot", "lambda m, i: m.locals_snapshot(i)", "KF-C03-locals-snapshot-refreshed"),
     ("finalizer_order", "lambda m, i: m.finalizer_order(i)", "KF-C03-function-cache-delays-finalizers"),
 ]
@@ -47,6 +49,10 @@ def known_difference(name, base, got):
         extra = [j for j in got["journal"] if j not in base["journal"]]
         if same_rest and got["result"] == base["result"] and extra and set(extra) == {("HashMeta.__hash__",)}:
             return "KF-C03-metaclass-hash"
+    if name == "metaclass_eq_in_generic":
+        extra = [j for j in got["journal"] if j not in base["journal"]]
+        if same_rest and got["result"] == base["result"] and extra and set(extra) == {("EqMeta.__eq__",)}:
+            return "KF-C03-metaclass-eq-in-generic"
     if name == "locals_snapshot":
         if same_rest and got["journal"] == base["journal"] and base["result"] == ("ok", describe(2)) and got["result"] == ("ok", describe(1)):
             return "KF-C03-locals-snapshot-refreshed"
@@ -65,19 +71,24 @@ FAULTS = [("none", (), False), ("log1", (1,), False), ("log2", (2,), False), ("l
 def describe(v, depth=0):
     """a comparison key for results that does not call user-defined code"""
     t = type(v)
-    if t in (int, str, float, bool, type(None), bytes):
+    is_one_of = lambda ts: any(t is x for x in ts)      # by identity: `in` would run a metaclass __eq__
+    if is_one_of((int, str, float, bool, type(None), bytes)):
         return repr(v)
     if depth > 4:
-        return t.__name__
-    if t in (list, tuple):
+        return type.__getattribute__(t, "__name__")
+    if is_one_of((list, tuple)):
         return (t.__name__, tuple(describe(x, depth + 1) for x in v))
     if t is dict:
         return ("dict", tuple((describe(k, depth + 1), describe(x, depth + 1)) for k, x in dict.items(v)))
     return t.__name__
 
 
-def execute(mod, wl, i, traced, k, fault, tbl, rate=None):
+def execute(mod, wl, i, traced, k, fault, tbl, rate=None, seed_first=None):
     """run one workload; returns the observable behaviour"""
+    if seed_first is not None:
+        # the program seeded the shared generator long before the tracing context is created, entered or left
+        import random
+        random.seed(seed_first)
     mod.JOURNAL.clear()
     mod.Lazy.resolved = 0
     out = io.StringIO()
@@ -108,6 +119,9 @@ def execute(mod, wl, i, traced, k, fault, tbl, rate=None):
         after = sys.getprofile()
     finally:
         sys.setprofile(None)
+    if seed_first is not None:
+        import random
+        res = (res, "drawn after the context", random.random(), random.randrange(10 ** 6))
     return {"result": res, "stdout": out.getvalue(), "journal": list(mod.JOURNAL), "lazy": mod.Lazy.resolved,
             "profiler_restored": after is marker, "flushes": None if logger is None else logger.flushes,
             "log_attempts": None if logger is None else logger.logs}
@@ -171,6 +185,19 @@ def run(pid, tier, seed):
                     chk.fail("result-changed", dict(case, traced=got["result"], untraced=base["result"],
                                                     detail="random.seed(i) ... traced calls ... random.random(): the numbers differ under tracing"))
                 chk.nontriv("uses_random|%d|%s" % (i, rate))
+        # ... also when the program seeded the generator before the tracing context was even created (creating, entering and
+        # leaving the context must not draw from it either), drawing inside the block and after it
+        wl = "lambda m, i: m.draws_random(i)"
+        for i in range(3 if quick else 40):
+            base = execute(mod, wl, i, False, 0, FAULTS[0], tbl, None, seed_first=1000 + i)
+            for rate in (None, 1, 2, 3, 10, 100):
+                chk.evaluations += 1
+                got = execute(mod, wl, i, True, 0, FAULTS[0], tbl, rate, seed_first=1000 + i)
+                case = {"workload": "draws_random (seeded before the context)", "i": i, "sample_rate": rate}
+                if got["result"] != base["result"]:
+                    chk.fail("result-changed", dict(case, traced=got["result"], untraced=base["result"],
+                                                    detail="random.seed(n); with trace(): calls, random.random(); random.random(): the numbers differ under tracing"))
+                chk.nontriv("draws_random|%d|%s" % (i, rate))
         # the model's probe list contains no unsafe operation for any generated value (and the journal above was empty)
         from .. import values
         vgen = values.Gen(tbl, chk.rng)
